@@ -1,7 +1,6 @@
 package directive
 
 import (
-	stdBytes "bytes"
 	"fmt"
 
 	"github.com/jsightapi/jsight-schema-go-library/bytes"
@@ -10,11 +9,20 @@ import (
 	"github.com/jsightapi/jsight-api-go-library/notation"
 )
 
+// unescapeParameter removes the surrounding double quotes of a quoted parameter
+// and the backslash of the two escape sequences the scanner accepts inside
+// quotes (\\ and \"). Every other byte is kept as written.
 func unescapeParameter(b bytes.Bytes) bytes.Bytes {
-	c := b.Unquote()
-	if len(c) != 0 && len(c) != len(b) {
-		c = stdBytes.ReplaceAll(c, []byte(`\"`), []byte(`"`))
-		c = stdBytes.ReplaceAll(c, []byte(`\\`), []byte(`\`))
+	if !b.InQuotes() {
+		return b
+	}
+	inner := b[1 : len(b)-1]
+	c := make(bytes.Bytes, 0, len(inner))
+	for i := 0; i < len(inner); i++ {
+		if inner[i] == '\\' && i+1 < len(inner) && (inner[i+1] == '"' || inner[i+1] == '\\') {
+			i++
+		}
+		c = append(c, inner[i])
 	}
 	return c
 }
